@@ -201,6 +201,16 @@ check("C15", "exploration",
       "Trusted: numpy dense solve; acceptance constants of B.3.",
       "exhaustive sweep over solver option tuples against a dense reference solve")
 
+check("C19", "exploration",
+      "Exhaustive enumeration: ALL maps elements -> {0,1,5,7,1000} for meshes with <=4 elements (1+25+625 vectors) plus structured "
+      "patterns on cube12 (all-zero, all-equal, non-contiguous, > 2^16) x {.msh, .vtu, .ply} x binary/ascii, read back with import_grid "
+      "and independently with meshio; grid functions: 5 space kinds x real/complex unit and dense coefficient vectors x data_type "
+      "{node, element, None} x 7 transformations x binary/ascii against evaluate_on_vertices / evaluate_on_element_centers.",
+      "DESIGN.md 4/C19",
+      "Trusted: meshio as the independent reader (its own ASCII $ElementData bug with numpy 2 is detected and declined); one recorded "
+      "finding (all-zero domain indices).",
+      "exhaustive enumeration of domain-index vectors and export option tuples against an independent reader")
+
 ALL = ["C%02d" % i for i in range(1, 21)]
 
 
